@@ -31,12 +31,13 @@ def evolving_history(sess, steps):
         for f in names:
             x = r.random()
             if f not in live and x < 0.5:
-                live[f] = sess.write_file(f, content.make() or b'x')
+                live[f] = sess.write_file(f, b'' if r.random() < 0.15 else content.make() or b'x')
             elif f in live and x < 0.25:
                 (sess.src / f).unlink()
                 del live[f]
             elif f in live and x < 0.6:
-                live[f] = sess.write_file(f, content.make() or b'y')
+                # a path changes - sometimes to an EMPTY file (truncated to zero bytes): the newest version is then the empty one
+                live[f] = sess.write_file(f, b'' if r.random() < 0.25 else content.make() or b'y')
         if not live:
             live[names[0]] = sess.write_file(names[0], b'seed')
         pick = r.sample(sorted(live), r.randrange(1, len(live) + 1))
